@@ -184,7 +184,7 @@ def forbidden_scan():
     return hits
 
 
-def lean_obligations(pid, props_rel):
+def lean_obligations(pid, props_rel, tier="quick"):
     """Regenerates the audit module, builds it, returns dict(obligations, discharged, broken[], log)."""
     ns, names = theorem_names(props_rel)
     audit_rel = "J5V/Audit/%s.lean" % pid
@@ -226,6 +226,12 @@ def lean_obligations(pid, props_rel):
     hits = forbidden_scan()
     if hits:
         res["broken"] += ["forbidden construct: " + h for h in hits]
+    if tier == "thorough":
+        # independent re-check of the compiled proofs by the toolchain's leanchecker
+        rc, log, dt = sh(["lake", "env", "leanchecker", module_of(props_rel)], cwd=LEAN, timeout=3000)
+        res["leanchecker"] = {"rc": rc, "s": round(dt, 1), "log": log[-500:]}
+        if rc != 0:
+            res["broken"].append("leanchecker rejected %s: %s" % (module_of(props_rel), log[-300:]))
     return res
 
 
@@ -387,7 +393,7 @@ def run_check(pid, tier, seed):
 
     notes = []
     notes += run_extractors(cfg.get("extract", []))
-    ob = lean_obligations(pid, cfg["lean_props"])
+    ob = lean_obligations(pid, cfg["lean_props"], tier)
     proof_broken = list(ob["broken"])
 
     stream_results = []
@@ -528,6 +534,8 @@ def run_check(pid, tier, seed):
         "notes": notes + extra.get("notes", []),
         "lake_build_s": ob.get("lake_s"),
     }
+    if "leanchecker" in ob:
+        cov["leanchecker"] = ob["leanchecker"]
     cov.update(extra.get("coverage", {}))
     ev = {"property_id": pid, "tier": tier, "seed": seed, "level": cfg.get("level", "proof"), "coverage": cov,
           "assumptions": cfg.get("assumptions", []), "wall_s": round(wall, 2), "violations": violations}
